@@ -98,6 +98,7 @@ class Session:
         self.now = 1000000000
         self.idc = 0
         self.per_conn_ids = False
+        self.sys_faults = False      # system calls are made to fail anywhere (a failed send says nothing about the connection then)
         self.valc = 0
         self.default_timeout = float(self.cfg.get("CONFIG_ROUTED_MESSAGES_TIMEOUT", 5.0))
         eo = int(self.cfg.get("CONFIG_ELEMENT_TABLE_ORDER", 13))
@@ -907,7 +908,7 @@ class Session:
                     c.failed_frames += 1
                     c.failed_at.append((len(c.expected_wire), frame))
                     self.stats["frames_refused"] += 1
-                    if c.healthy:
+                    if c.healthy and not self.sys_faults:
                         self.v("wire/send-failed-on-healthy-connection", "on %s" % c.name)
                     # the frame never reaches the client, but a response in it tells what the daemon did: keep the model in step
                     try:
